@@ -268,7 +268,12 @@ def build(c: dict, seed: int, unsupported: Optional[Tuple[str, Any]] = None, pro
                      ["input", "weight", "bias"][: len(ts)], ["input"])
     if op == "layer_norm":
         ns = c["ns"]
-        has_b = c["bias"] and c["weight"]
+        has_b = c["bias"]
+        if has_b and not c["weight"]:
+            # a bias without a gain (weight=None, bias=b): accepted by F.layer_norm, a combination the module classes never produce
+            ts = [T(c["x"]), T(ns, 2)]
+            ns_u0 = [list(ns), tuple(ns), torch.Size(ns)][c["seedA"] % 3]
+            return Built(lambda x, b: U.layer_norm(x, ns_u0, None, b, c["eps"]), lambda x, b: F.layer_norm(x, tuple(ns), None, b, c["eps"]), ts, ["input", "bias"], [])
         ts = [T(c["x"])] + ([T(ns, 1)] if c["weight"] else []) + ([T(ns, 2)] if has_b else [])
 
         # normalized_shape as a list, a tuple or a torch.Size (all accepted by the torch counterpart)
